@@ -236,7 +236,7 @@ void SparseLUSolver<T>::solveInPlace(double* b) const
                 b[i] -= U_values[idx] * b[col];
             }
         }
-        if (std::abs(diag) < 1e-12) {
+        if (diag == T(0)) {
             std::cerr << "Zero diagonal encountered in U at row " << i << "!\n";
             std::exit(EXIT_FAILURE);
         }
